@@ -52,6 +52,15 @@ def world(n_chr):
     # type unique); the other alignment is a spliced intergenic one on another chromosome
     w["reads"].append(W.read_of("mmg_gA", "chr1", [[2251, 2400], [2801, 2950]], polya=False))
     w["reads"].append(W.read_of("mmg_gA", "chr2", W.exons(8000, [0, 1, 2]), polya=False, secondary=True))
+    # a soft-masked (lower-case) stretch of the reference over the whole first gene and reads whose junctions are displaced by a few
+    # bases from the annotated ones (left and right splice site): the junction correction compares read and reference bases, the
+    # reference is held as a pyfaidx record by default and as a plain string with --high_memory
+    w["softmask"] = [["chr1", 900, 3600]]
+    sh = W.exons(1000, [0, 1, 2, 3, 4])
+    sh[0][1] += 3
+    sh[3][0] -= 4
+    for i in range(3):
+        w["reads"].append(W.read_of("shm%d_g%s" % (i, "ABC"[i]), "chr1", sh))
     return w
 
 
